@@ -7,7 +7,12 @@ case kinds
         self | renum | reroot | swap-noneq | swap-eq | swap-other | cross | hand
   {"kind": "bal-<how>", "rsmi": r}                                             BalanceReactionCheck.rsmi_balance_check(r); <how> in
         corpus | std | frag | del | dup | charge | dropH | addH | addHfrag | hand
-  {"kind": "std", "rsmi": r, "variants": [[how, r'], ...]}                     Standardize().fit: oracle only (pure RDKit)
+  {"kind": "std", "rsmi": r, "variants": [[how, r'], ...]}                     every way of calling Standardize on r and on every variant; model =
+        the string-level logic (split / filter / sorted / join / None / ValueError / option forwarding / "[HH]") over RDKit oracle tables
+  {"kind": "expand", "rsmi": r}                                                CanonRSMI.expand_aam(r): map numbers of every atom afterwards
+  {"kind": "balstr", "rsmis": [..]}                                            rsmi_balance_check at string level (split, formula ==, ValueError)
+  {"kind": "equiv", "rsmis": [..], "method": "RC"|"ITS"}                       AAMValidator.check_equivariant_graph on the graphs of the strings
+  {"kind": "fixaam", "rsmi": r}                                                FixAAM.fix_aam_rsmi(r) parsed again = the graphs of r with every id + 1 (+ the norm oracle)
 
 Observables (graph level): canonical reactant graph, mapping_pairs, canonical product graph (node ids, all attributes);
 validator verdicts RC / ITS + both reaction centres; balance verdict + element counts with hydrogens + charges.
@@ -18,11 +23,12 @@ from ..gen import c01_enc as E
 from ..gen import c01_rsmi as R
 from ..gen import c09_gen as G9
 from ..gen import c09_hist as HI
+from ..gen import c09_str as ST
 from ..tok import S
 
 PID = "C09"
-COQ_HEADER = ("From Coq Require Import List NArith ZArith.\n"
-              "From SK Require Import lib.Tok lib.LGraph model.C01_Model model.C09_Model.\n"
+COQ_HEADER = ("From Coq Require Import String.\nFrom Coq Require Import List NArith ZArith.\n"
+              "From SK Require Import lib.Tok lib.LGraph lib.StrJoin model.C01_Model model.C02_Model model.C09_Model model.C09_Strings.\n"
               "Import ListNotations.\nOpen Scope Z_scope.\n")
 SHARD = 24
 IMPL_TIMEOUT = 1500
@@ -228,14 +234,19 @@ def _hist_terms(case):
                 last.pop(st["obj"], None)
             elif op == "check" and st.get("api") != "taut":
                 gs = [_valid_graphs(st["m"]), _valid_graphs(st["t"])]
-                if gs[0] is None or gs[1] is None or not _simple(*gs[0]) or not _simple(*gs[1]):
+                if any(g is not None and not _simple(*g) for g in gs):
                     continue
-                rc = st.get("method", "RC").upper() == "RC" or st.get("api") == "default"
-                if not rc and not _its_in_domain(gs):
+                default = st.get("api") == "default"
+                meth = "RC" if default else st.get("method", "RC")
+                if not ST.ascii_ok(meth):
                     continue
-                lits = " ".join(E.coq_mgraph(E.from_nx(x)) for gh in gs for x in gh)
-                ia = "true" if st.get("ia") and st.get("api") != "default" else "false"
-                out.append((i, "tbool (%s %s %s)" % ("smiles_check_rc_o" if rc else "smiles_check_its_o", ia, lits)))
+                rc = meth.upper() == "RC"
+                if not rc and not all(g is None for g in gs) and not _its_in_domain([g for g in gs if g is not None]):
+                    continue
+                opt = lambda gh: "None" if gh is None else "(Some (%s, %s))" % (E.coq_mgraph(E.from_nx(gh[0])), E.coq_mgraph(E.from_nx(gh[1])))
+                ia = "true" if st.get("ia") and not default else "false"
+                # the method string is dispatched by the MODEL (check_method.upper() == "RC"); unreadable strings -> None -> False
+                out.append((i, "tbool (smiles_check_full %s %s %s %s)" % (ST.cbytes(meth), ia, opt(gs[0]), opt(gs[1]))))
             elif op == "canon":
                 c = ctor[st["obj"]]
                 t = _canon_term(st["rsmi"], c["backend"], c.get("wl_iterations", 3), tuple(c.get("node_attrs", DEFAULT_ATTRS)))
@@ -358,9 +369,19 @@ def impl(case):
     if k.startswith("bal-"):
         return _impl_bal(case)
     if k == "std":
-        return [_std_all(case["rsmi"])] + [_std_all(v) for _, v in case.get("variants", [])]
+        return ST.std_impl(case)
     if k == "norm":
         return _norm_run(case["rsmi"])
+    if k == "expand":
+        return ST.expand_obs(case["rsmi"])
+    if k == "balstr":
+        return ST.balstr_impl(case)
+    if k == "equiv":
+        return ST.equiv_impl(case)
+    if k == "fixaam":
+        from synkit.Chem.Reaction.fix_aam import FixAAM
+        gh = _valid_graphs(FixAAM.fix_aam_rsmi(case["rsmi"]))
+        return ["unparsable"] if gh is None else [E.obs_mgraph(gh[0]), E.obs_mgraph(gh[1])]
     raise AssertionError(k)
 
 
@@ -417,6 +438,25 @@ def coq_case(case):
             if gh is None:
                 return None
             return "run_balance %s %s" % (E.coq_mgraph(E.from_nx(gh[0])), E.coq_mgraph(E.from_nx(gh[1])))
+        if k == "std":
+            return ST.std_term(case)
+        if k == "expand":
+            return ST.expand_term(case["rsmi"])
+        if k == "balstr":
+            return ST.balstr_term(case)
+        if k == "fixaam":
+            gh = _valid_graphs(case["rsmi"])
+            if gh is None or not _simple(*gh):
+                return None
+            return "run_fixaam %s %s" % (E.coq_mgraph(E.from_nx(gh[0])), E.coq_mgraph(E.from_nx(gh[1])))
+        if k == "equiv":
+            lits = []
+            for r in case["rsmis"]:
+                gh = _valid_graphs(r)
+                if gh is None or not _simple(*gh) or (case.get("method") == "ITS" and not _its_in_domain([gh])):
+                    return None
+                lits.append((E.coq_mgraph(E.from_nx(gh[0])), E.coq_mgraph(E.from_nx(gh[1]))))
+            return ST.equiv_term(case, lits)
     except (KeyError, TypeError, ValueError):
         return None
     return None
@@ -661,9 +701,87 @@ def _oracle_std(case):
     return fails[:3]
 
 
+def _oracle_expand(case):
+    """expand_aam (first step of the canonicaliser): every atom is numbered afterwards, mapped atoms keep their number, the new
+    numbers are fresh and pairwise different - so no unmapped atom gets a partner on the other side (reference: the numbers
+    read off the two strings with a regular expression + RDKit's atom count)"""
+    import re
+    from synkit.Chem.Reaction.canon_rsmi import CanonRSMI
+    r = case["rsmi"]
+    if r.count(">>") != 1:
+        return []
+    sides = r.split(">>")
+    mols = [G9._mol(x) if all(G9._mol(f) is not None for f in x.split(".")) else None for x in sides]
+    if any(m is None for m in mols):
+        return []
+    try:
+        out = CanonRSMI().expand_aam(r)
+    except Exception as e:
+        return [_fail("expand-raises", "%s on %r" % (type(e).__name__, r))]
+    num = lambda x: [int(v) for v in re.findall(r":(\d+)\]", x)]
+    a, b = out.split(">>")
+    ia, ib, oa, ob = num(sides[0]), num(sides[1]), num(a), num(b)
+    fails = []
+    if len(oa) != mols[0].GetNumAtoms() or len(ob) != mols[1].GetNumAtoms() or 0 in oa + ob:
+        fails.append(_fail("expand-all-mapped", "not every atom is numbered in %r (from %r)" % (out, r)))
+    new_a, new_b = list(oa), list(ob)
+    for x in [v for v in ia if v]:
+        if x in new_a:
+            new_a.remove(x)
+        else:
+            fails.append(_fail("expand-keeps", "reactant number %d of %r is gone in %r" % (x, r, out)))
+    for x in [v for v in ib if v]:
+        if x in new_b:
+            new_b.remove(x)
+        else:
+            fails.append(_fail("expand-keeps", "product number %d of %r is gone in %r" % (x, r, out)))
+    fresh = new_a + new_b
+    if len(set(fresh)) != len(fresh) or set(fresh) & (set(ia) | set(ib)):
+        fails.append(_fail("expand-fresh", "new numbers %r are not fresh / distinct: %r -> %r" % (sorted(fresh), r, out)))
+    return fails[:3]
+
+
+def _oracle_equiv(case):
+    """check_equivariant_graph returns exactly the index pairs i < j of equivalent mappings (reference ITS / centre + VF2)"""
+    from synkit.Chem.Reaction.aam_validator import AAMValidator
+    Is = [G9.ref_its(r) for r in case["rsmis"]]
+    if any(I is None for I in Is):
+        return []
+    gs = ST.equiv_graphs(case["rsmis"], case.get("method", "RC"))
+    if gs is None:
+        return []
+    pairs, count = AAMValidator.check_equivariant_graph(gs)
+    ref = [G9.ref_rc(I) for I in Is] if case.get("method", "RC") == "RC" else Is
+    want = [(i, j) for i in range(len(ref)) for j in range(i + 1, len(ref)) if G9.iso(ref[i], ref[j])]
+    if [tuple(p) for p in pairs] != want or count != len(want):
+        return [_fail("validator-equivariant", "check_equivariant_graph gives %r / %r, reference %r on %r" % (pairs, count, want, case["rsmis"]))]
+    return []
+
+
+def _oracle_balstr(case):
+    from synkit.Chem.Reaction.balance_check import BalanceReactionCheck
+    fails = []
+    for r in case["rsmis"]:
+        want = G9.ref_balanced(r) if r.count(">>") == 1 else None
+        if want is None:
+            continue
+        got = BalanceReactionCheck.rsmi_balance_check(r)
+        if got != want:
+            fails.append(_fail("balance-iff", "rsmi_balance_check(%r) = %r, reference %r" % (r, got, want)))
+    return fails[:3]
+
+
 def oracle(case):
     worker_init()
     k = case["kind"]
+    if k == "expand":
+        return _oracle_expand(case)
+    if k == "equiv":
+        return _oracle_equiv(case)
+    if k == "balstr":
+        return _oracle_balstr(case)
+    if k == "fixaam":
+        return _oracle_norm(case)
     if k.startswith("hist-"):
         return _oracle_hist(case)
     if k.startswith("canon-"):
@@ -692,6 +810,14 @@ def nontrivial(case, obs):
         return isinstance(obs, list) and obs[0] is not None and obs[0] != "unparsable" and case["mapped"] != case["truth"]
     if k.startswith("bal-"):
         return isinstance(obs, list) and obs[0] in (True, False)
+    if k == "expand":
+        return isinstance(obs, list) and len(obs) == 2 and obs[1] is True
+    if k == "equiv":
+        return isinstance(obs, list) and len(obs) == 2 and len(case["rsmis"]) >= 3
+    if k == "balstr":
+        return isinstance(obs, list) and len(obs) >= 2
+    if k == "fixaam":
+        return isinstance(obs, list) and len(obs) == 2
     return (k == "std" and bool(case.get("variants"))) or k == "norm"
 
 
@@ -721,7 +847,21 @@ def distribution(cases, obss):
             if c["backend"] == "nauty" and n > NAUTY_MAX_ATOMS:
                 outside["nauty_too_big"] += 1
     d["outside_model_bounds"] = outside
+    d["string_level"] = {kk: sum(1 for c in cases if c["kind"] == kk) for kk in ("std", "expand", "equiv", "balstr", "fixaam", "norm")}
+    d["std_strings"] = sum(1 + len(c.get("variants", [])) for c in cases if c["kind"] == "std")
+    d["expand_unmapped_atoms"] = {}
+    for c, o in zip(cases, obss):
+        if c["kind"] == "expand" and isinstance(o, list) and len(o) == 2 and isinstance(o[0], list) and len(o[0]) == 2:
+            n = len(re_maps_zero(c["rsmi"]))
+            key = "0" if n == 0 else ("1-5" if n <= 5 else "6+")
+            d["expand_unmapped_atoms"][key] = d["expand_unmapped_atoms"].get(key, 0) + 1
     return d
+
+
+def re_maps_zero(rsmi):
+    """positions of the unmapped atoms of a reaction string as expand_aam reads them (empty list when unreadable)"""
+    inp = ST.expand_input(rsmi)
+    return [] if inp is None else [i for i, m in enumerate(inp[0]) if m == 0]
 
 
 # ------------------------------------------------------------------ generators
@@ -870,6 +1010,8 @@ def gen_histories(tier, rng, corp):
         src = "hv#%d" % n_
         tol_first = [chk(m, t, "RC", True), chk(m, t, "RC", False), chk(t, m, "RC", False), chk(m2, t, "ITS", False), chk(t, m2, "RC", False, "default")]
         def_first = [chk(m, t, "RC", False), chk(t, m2, "ITS", True), chk(m, t, "RC", True), chk(m2, t, "rc", False), chk(m, t, "its", False)]
+        # option handling: only upper(method) == "RC" selects the centre, everything else the full ITS
+        def_first += [chk(m, t, rng.choice(("Rc", "rC")), False, "pos"), chk(m2, t, rng.choice(("foo", "", "RC ", "R")), False, "kw")]
         if w:
             tol_first += [chk(w, t, "RC", False), chk(_rewrite(w, rng), t, "ITS", False)]
             def_first += [chk(w, t, "RC", True), chk(w, t, "RC", False)]
@@ -1061,8 +1203,10 @@ def gen_cases(tier, rng):
         cases.append(_std_case(r, rng, "%s#%d" % (s, i), 1 if q else 2))
     # ---- FixAAM / NormalizeAAM (oracle only), also with three-digit map numbers
     chosen = (rng.sample(us, 6) + rng.sample(ec, 6)) if q else corp
-    for s, i, r in chosen:
-        cases.append(dict(kind="norm", rsmi=r, src="%s#%d" % (s, i)))
+    for n_, (s, i, r) in enumerate(chosen):
+        cases.append(dict(kind="norm" if (q and n_ % 2) else "fixaam", rsmi=r, src="%s#%d" % (s, i)))
+        if not q:
+            cases.append(dict(kind="norm", rsmi=r, src="%s#%d" % (s, i)))
         if not q or rng.random() < 0.3:
             cases.append(dict(kind="norm", rsmi=G9.renumber_big(r, rng), src="%s#%d" % (s, i)))
     # ---- sizes: the largest corpus reaction (>= 100 atoms) and three/four-digit map numbers through every entry point
@@ -1077,6 +1221,41 @@ def gen_cases(tier, rng):
         sw = _swap_of(v, rng)
         if sw:
             cases.append(dict(kind="valid-swap-noneq", mapped=sw, truth=r, src="%s#%d" % (s, i)))
+    # ---- string level (round 5): expand_aam numbering, check_equivariant_graph on several graphs, balance check on odd strings
+    import re
+    chosen = (rng.sample(us, 4) + rng.sample(ec, 4)) if q else corp
+    for s, i, r in chosen:
+        src = "%s#%d" % (s, i)
+        v = G9.unmap_some(r, rng)
+        if v:
+            cases.append(dict(kind="expand", rsmi=v, src=src))
+            cases.append(dict(kind="expand", rsmi=G9.renumber_big(v, rng), src=src))
+        cases.append(dict(kind="expand", rsmi=re.sub(r":\d+\]", "]", r), src=src))          # nothing mapped
+        a, b = r.split(">>")
+        cases.append(dict(kind="expand", rsmi=re.sub(r":\d+\]", "]", a) + ">>" + b, src=src))  # one side only
+        if not q:
+            cases.append(dict(kind="expand", rsmi=r, src=src))
+    for i, r in enumerate(HAND_CANON + DEGENERATE + [HAND_VALID[-1][0], "[CH3:5][OH:0].[CH3:9]C>>[CH3:5]O[CH3:9].C", "C.C.[CH4:3]>>CC.[CH4:3]"]):
+        cases.append(dict(kind="expand", rsmi=r, src="hand#%d" % i))
+    small = [x for x in corp if len(R.map_numbers(x[2])) <= 28]
+    eq_pool = [("hand", 1, HAND_CANON[1]), ("hand", 2, HAND_CANON[2]), ("arom", 0, AROM[0])] + rng.sample(small, 3 if q else 40)
+    for n_, (s, i, t) in enumerate(eq_pool):
+        o = eq_pool[(n_ + 1) % len(eq_pool)][2]
+        rs = [t, _rewrite(t, rng), o, R.renumber_maps(t, rng), R.renumber_maps(o, rng)]
+        w = _swap_of(t, rng)
+        if w:
+            rs.insert(2, w)
+        cases.append(dict(kind="equiv", rsmis=rs, method="RC", src="%s#%d" % (s, i)))
+        if n_ % 2 == 0:
+            cases.append(dict(kind="equiv", rsmis=rs[:4], method="ITS", src="%s#%d" % (s, i)))
+    cases.append(dict(kind="equiv", rsmis=[], method="RC", src="empty"))
+    cases.append(dict(kind="equiv", rsmis=[HAND_CANON[2]], method="RC", src="single"))
+    odd = ["a>>b>>c", "xx>>yy", "C>C", "", "C>>>C", ">>>>", "C.>>C", "[H+].[OH-]>>O>>O"]
+    cases.append(dict(kind="balstr", rsmis=DEGENERATE + HAND_BALANCE + odd, src="hand"))
+    cases.append(dict(kind="balstr", rsmis=[x[2] for x in rng.sample(corp, 6 if q else 120)], src="corpus"))
+    # odd strings through every way of calling the standardiser (ValueError / None / filtered fragments)
+    for i, d in enumerate(DEGENERATE + odd + ["CC.xx.O>>CC.O", "[H][H].C>>C.[HH]", ".>>.", "xx>>C", "C>>xx", "c1ccccc1.C1=CC=CC=C1>>c1ccccc1"]):
+        cases.append(dict(kind="std", rsmi=d, variants=[], src="odd#%d" % i))
     cases += gen_histories(tier, rng, corp)
     return cases
 
@@ -1093,52 +1272,63 @@ EXHAUSTIVE = {"quick": False, "thorough": False}
 EXPLANATION = ("Sampled (quick) / whole corpus (thorough).  The correspondence compares graph-level intermediate results: canonical reactant "
                "graph, mapping_pairs and canonical product graph of CanonRSMI (model: canonical order from the C08 model of the back-end, "
                "pairwise index remap, nx.relabel_nodes with partial / colliding maps, atom-map sync), both validator verdicts and both reaction "
-               "centres (model: exhaustive matcher over lib/Mono's candidate test on typesGH + order), balance verdict and element counts.")
+               "centres (model: exhaustive matcher over lib/Mono's candidate test on typesGH + order), balance verdict and element counts; and "
+               "string-level results (model/C09_Strings.v): every way of calling Standardize (fit x 4 option combinations, standardize_rsmi x 2, "
+               "remove_atom_mapping, the filtered fragment lists before sorting, categorize_reactions) with RDKit as oracle tables, the map number "
+               "of every atom after expand_aam, rsmi_balance_check on odd strings, check_equivariant_graph on 0-6 graphs.")
 TRUSTED_BASE = [
     "Coq 8.16.1 kernel + vm_compute (no native_compute); stdlib only",
-    "hand-written model coq/model/C09_Model.v (on the datatypes of C01_Model.v, get_rc of C02_Model.v, canonical orders of C08_Model.v) tied to "
-    "canon_rsmi.py / aam_validator.py / balance_check.py by the per-run correspondence",
-    "RDKit (SMILES parser, sanitiser, canonical SMILES writer, CalcMolFormula) and MolToGraph / GraphToMol: the graphs reach the model AFTER them",
+    "hand-written models coq/model/C09_Model.v (on the datatypes of C01_Model.v, get_rc of C02_Model.v, canonical orders of C08_Model.v) and "
+    "coq/model/C09_Strings.v tied to canon_rsmi.py / aam_validator.py / balance_check.py / standardize.py by the per-run correspondence",
+    "RDKit (SMILES parser, sanitiser, canonical SMILES writer, CalcMolFormula) and MolToGraph / GraphToMol: the graphs reach the graph-level model "
+    "AFTER them; the string-level model receives their answers as finite oracle tables computed by direct RDKit calls (harness/gen/c09_str.py)",
     "networkx: relabel_nodes, is_isomorphic (VF2; the model is an exhaustive matcher), weisfeiler_lehman_subgraph_hashes (colours are an oracle input)",
-    "harness encoders harness/gen/c01_enc.py; independent references harness/gen/c09_gen.py (plain RDKit reading + VF2 + Counter)",
+    "harness encoders harness/gen/c01_enc.py, harness/gen/c09_str.py; independent references harness/gen/c09_gen.py (plain RDKit reading + VF2 + Counter)",
 ]
 ASSUMPTIONS = [
     "premise [parsed] of the canonicaliser theorems (node id = atom_map > 0, simple graphs) is what rsmi_to_graph(expand_aam(r)) delivers: "
-    "monitored on every canonicaliser case (clause monitor-parsed)",
+    "monitored on every canonicaliser case (clause monitor-parsed); its numbering half is proved (C09_expand_sides_spec)",
     "reactions are 'reactants>>products' strings RDKit can read; a map number occurs at most once per side",
-    "CanonRSMI with default wl_iterations / node_attrs, back-ends wl and nauty; AAMValidator.smiles_check with ignore_aromaticity=False",
+    "explicit premises of the string-level theorems: [writer_ok] (graph_to_smi is a function of the graph up to atom / bond listing order), "
+    "[reads_back] (the canonical string is parsed back to the written graphs up to listing order), writer contract of Standardize "
+    "(a written fragment is read back and written as itself, no '.' or '>' inside): RDKit contracts, monitored by the oracle clauses "
+    "canon-fixed-point, canon-numbering-independent, standardize-idempotent, standardize-invariant on every run",
+    "wl: WL colours of corresponding atoms correspond (networkx contract) and are pairwise distinct; nauty: reactant graph without non-trivial automorphism",
 ]
 TESTED_NOT_PROVED = [
     "history independence of the IMPLEMENTATION (no stale instance state / module-level cache / aliasing of returned objects): every step of "
     "every history is compared with a fresh evaluation and with the pure model function; in the model it holds by construction",
     "FixAAM.fix_aam_rsmi is a renumbering, NormalizeAAM.fit keeps the reaction centre (oracle only); smiles_check_tautomer (fresh-vs-history only); "
     "back-end morgan (oracle only)",
-    "Standardize.fit idempotent / invariant under atom order, fragment order, map numbers (pure RDKit: oracle on every run, no model)",
-    "string-level fixed point and numbering independence of CanonRSMI.canonical_rsmi (needs RDKit's canonical writer: oracle on every run)",
+    "the RDKit contracts named as premises (canonical writer is a function of the graph, parse-write round trip, canonical SMILES of one fragment "
+    "is a fixed point, remove_atom_mapping's canonical side string does not depend on atom order / fragment order / numbers): oracle on every run",
     "CalcMolFormula string equality <=> equal element counts and charge (RDKit oracle; the graph-level formula is proved, the verdicts are compared on every run)",
-    "expand_aam / rsmi_to_graph / graph_to_smi (RDKit front and back end of the canonicaliser): same unmapped sides checked by the oracle on every run",
+    "rsmi_to_graph / graph_to_smi (RDKit front and back end of the canonicaliser): same unmapped sides checked by the oracle on every run",
     "WL colours are an input of the model (any ranking); nauty model evaluated only for reactant graphs of <= %d atoms, ITS matcher for <= %d atoms "
     "(larger cases: oracle + reaction-centre matcher only)" % (NAUTY_MAX_ATOMS, ITS_MAX_ATOMS),
+    "validate_smiles statistics (accuracy, success_rate), parse_input, dict_balance_check key handling: compared with references / fresh evaluations in the histories, not modelled",
 ]
 TECHNIQUE = "Coq proof about an executable Gallina model + per-run correspondence (vm_compute) + independent property oracle"
-LEVEL_TEXT = ("Machine-checked proof (Coq) over an executable graph-level model of CanonRSMI.canonicalise (after RDKit parsing, before RDKit "
-              "writing), AAMValidator.smiles_check and the balance formula: for every parsed mapped reaction (balanced or not) and every canonical "
-              "order that lists each reactant atom once (proved in C08 for wl with any colour ranking and for the nauty search) the canonical "
-              "reactant and product graphs are the input graphs renamed by one injective map (canonical position on reactant atoms, fresh numbers "
-              "after them on product atoms without partner), mapping_pairs are exactly the shared atoms, and the ITS of the canonical reaction is "
-              "isomorphic to the ITS of the input; the validator's matcher answers true exactly when the two ITS graphs / reaction centres are "
-              "isomorphic on typesGH and bond-order pairs, hence accepts every renumbering (also with re-ordered atoms and rewritten atom_map "
-              "attributes) and rejects every swapped mapping that is not equivalent; the graph-level balance check is true exactly when all element counts (with hydrogens) and the total charge agree. "
-              "Numbering independence (for renamings that keep the relative order of product atoms without reactant partner) and fixed point "
-              "(all reactions) are proved at graph level: in general relative to an explicit invariance premise on the graph canonicaliser, and with "
-              "that premise discharged for wl (corresponding, pairwise distinct colours) and for nauty (reactant graph without non-trivial "
-              "automorphism; from the C08 theorems about the search) - _partial only through the RDKit writer/parser contract. The validator is "
-              "exact under both values of ignore_aromaticity; the model functions are pure (no state between calls). "
-              "The model is compared with the Python "
-              "code on every run (canonical graphs, mapping pairs, verdicts, reaction centres, element counts; back-ends wl and nauty).")
-LEVEL_NOTE = ("Not proved, only tested on every run (independent oracle: plain RDKit reading + VF2 + Counter): the string-level clauses that live in "
-              "RDKit - Standardize.fit idempotent/invariant, canonical_rsmi fixed point and numbering independence (canonical SMILES writer), "
-              "same unmapped sides after expand_aam/graph_to_smi, CalcMolFormula string equality = equal counts and charge. WL colours are an "
-              "input of the model. Model evaluation is bounded (nauty <= 45 reactant atoms, ITS matcher <= 40 atoms); larger cases are checked "
-              "by the oracle and the reaction-centre matcher. One genuine defect found and repaired (8092e28: product atoms without reactant "
-              "partner were dropped or merged).")
+LEVEL_TEXT = ("Machine-checked proof (Coq) over executable models of CanonRSMI.canonicalise (graph level, after RDKit parsing, before RDKit "
+              "writing; plus the numbering of expand_aam), AAMValidator.smiles_check / check_equivariant_graph, the balance formula, and the "
+              "string-level logic of Standardize and rsmi_balance_check around the RDKit calls. Proved for all inputs: the canonical reactant "
+              "and product graphs are the input graphs renamed by one injective map (canonical position on reactant atoms, fresh numbers after "
+              "them on product atoms without partner), mapping_pairs are exactly the shared atoms, the ITS of the canonical reaction is "
+              "isomorphic to the ITS of the input; expand_aam keeps mapped numbers and gives unmapped atoms fresh, pairwise different numbers (no "
+              "unmapped atom gets a partner). Numbering / atom-order / bond-order independence and fixed point for wl (corresponding, pairwise "
+              "distinct colours) and nauty (reactant graph without non-trivial automorphism; from the C08 theorems about the search), for EVERY "
+              "parsed presentation of the reaction (any renaming that keeps the relative order of partner-less product atoms, any atom order, bond "
+              "order, bond orientation) at graph level, and for the canonical_rsmi STRING relative to two explicit RDKit contracts (writer is a "
+              "function of the graph; the canonical string is read back as the written graphs). The validator's matcher answers true exactly when "
+              "the two ITS graphs / reaction centres are isomorphic on typesGH and bond-order pairs (both values of ignore_aromaticity), hence "
+              "accepts every renumbering and rejects every non-equivalent swap; check_equivariant_graph returns exactly the index pairs of "
+              "isomorphic graphs. Balance: true exactly when all element counts (with hydrogens) and the total charge agree; dicts_balance_check "
+              "is a loss-free split. Standardize: the standard form depends only on the multiset of canonical fragment strings of each side "
+              "(fragment order, atom order), is idempotent relative to the writer contract of a single fragment, and fit with the default "
+              "remove_aam=True is a function of the two cleaned sides. The models are compared with the Python code on every run.")
+LEVEL_NOTE = ("Not proved, only tested on every run (independent oracle: plain RDKit reading + VF2 + Counter): the RDKit contracts that appear as "
+              "explicit premises (canonical SMILES writer / parser round trip), CalcMolFormula string equality = equal counts and charge, "
+              "FixAAM / NormalizeAAM, back-end morgan. WL colours are an input of the model. Model evaluation is bounded (nauty <= 45 reactant "
+              "atoms, ITS matcher <= 40 atoms); larger cases are checked by the oracle and the reaction-centre matcher. Known finding: >= 2 "
+              "product atoms without reactant partner are numbered in the order of their input numbers (C09_numbering_partnerless_refuted). "
+              "Defects found and repaired: 8092e28 (product atoms without reactant partner dropped or merged), 7b06bf6, b262050.")
